@@ -576,7 +576,7 @@ class BaseCurve(Intface_BaseCurve):
         if oldctrlpoints is not None:
             oldctrlpoints = list(oldctrlpoints)
             for i, weight in enumerate(oldweights):
-                oldctrlpoints[i] *= weight
+                oldctrlpoints[i] = weight * oldctrlpoints[i]
             newctrlpoints = []
             for i, line in enumerate(matrix):
                 newctrlpoints.append(0 * oldctrlpoints[0])
